@@ -11,17 +11,57 @@ NOTE_COMMON = ('Trusted: Lean 4.33 kernel; axioms propext / Classical.choice / Q
                'generated inputs, bounded by the generators) and by regex translators; CPython dict order and list.sort '
                'failure characterisation (DESIGN.md 3.2, 8).')
 
+PARTIAL = (' The statements are about the executable Lean model; the model is tied to /repo on every run by the correspondence '
+           'stream (same requests through the real engine and the Lean driver, compared on canonical outputs) and the '
+           'property is also evaluated directly on the implementation by an oracle that yields replayable failing inputs.')
+
 CLAIMED = {
-    'C01': dict(
-        text=('Proof (Lean 4): C01_roundtrip / C01_reflatten / C01_machine / C01_flatten_sane state, for every PyObj tree, every '
-              'Cfg (none_is_leaf, namespace, registry, ordered set, any predicate, any depth limit), that unflatten(flatten(t)) '
-              'rebuilds exactly t and re-flattening gives the identical leaves and treespec; proved by mutual structural '
-              'induction with no size bound.  The model is tied to /repo by a correspondence stream (flatten, roundtrip on '
-              'generated trees, compared down to the node array) and the property is also evaluated directly on the '
-              'implementation (exact structure, leaf identity, replacement leaves, wrong leaf counts).  Replacement-leaves and '
-              'leaf-count clauses are currently covered by the implementation oracle only (theorems pending).'),
-        technique='Lean 4 proof by mutual structural induction + model/implementation correspondence',
-        ref='6 C01'),
+    'C01': dict(text='Proved for every tree / Cfg: C01_roundtrip, C01_reflatten, C01_machine, C01_flatten_sane (unflatten inverts flatten exactly; '
+                     'mutual structural induction, no size bound). Replacement-leaves and wrong-leaf-count clauses: implementation oracle only.' + PARTIAL,
+                technique='Lean 4 proof (mutual structural induction) + correspondence', ref='6 C01'),
+    'C02': dict(text='Proved: C02_leaf_order (flatten leaves = documented order leavesOf, all trees/configs), C02_none_filter, C02_pred_refines, '
+                     'C02_sort_perm / C02_sort_fallback, classification lemmas C02_kind_*, C02_pred_first. Dict-insertion-order irrelevance '
+                     '(sort canonicity) is covered by oracle + correspondence only.' + PARTIAL,
+                technique='Lean 4 proof (refinement to a reference leaf order) + correspondence', ref='6 C02'),
+    'C03': dict(text='Proved: C03_flatten_with_path_agrees (leaves, node array, namespace and error of flatten vs flatten_with_path for well-behaved '
+                     'flatten functions), C03_counts, C03_is_leaf_flatten / C03_flatten_is_leaf, C03_error_parity_partial; the full error-parity '
+                     'statement is refuted by C03_error_parity_full_false (known finding). tree_iter and the reductions: correspondence + oracle.' + PARTIAL,
+                technique='Lean 4 proof (simulation between two traversals) + correspondence', ref='6 C03'),
+    'C04': dict(text='Proved: C04_path_of_accessor (accessor walk and path walk run in lock step: .path of the i-th accessor is the i-th path, any node '
+                     'array), C04_path_of_accessor_leaf, C04_resolveEntryKind_not_auto. Accessor application to trees and codify/eval: oracle only.' + PARTIAL,
+                technique='Lean 4 proof (fuel induction over two index walkers) + correspondence', ref='6 C04'),
+    'C05': dict(text='Proved about the model of ops.py: C05_calls_in_order, C05_calls_prefix, C05_prefix_failure_before_calls, '
+                     'C05_inplace_returns_tree. Argument alignment (sub-tree at the leaf path) rests on flatten_up_to (C07) and is checked by the oracle.' + PARTIAL,
+                technique='Lean 4 proof about the ops.py model + correspondence', ref='6 C05'),
+    'C06': dict(text='Proved: C06_eq_hash (== implies equal hash input for every field selection determined by ==), C06_symm, C06_refl; generated '
+                     'obligations C06_hashSpecFields_ok / C06_hashNodeFields_ok / C06_eqFields_ok re-check hashing.cpp and richcomparison.cpp on every run.' + PARTIAL,
+                technique='Lean 4 proof with obligations regenerated from the source (translator) + correspondence', ref='6 C06'),
+    'C07': dict(text='Proved (partial): C07_guards, C07_leaf_is_prefix, C07_flatten_up_to_leaf, C07_kind_mismatch_value_error, '
+                     'C07_dict_keyset_mismatch. The full equivalence flatten_up_to <=> is_prefix <=> prefix_errors and the order laws are covered '
+                     'by the array-level model through correspondence and by an independent reference prefix relation in the oracle.' + PARTIAL,
+                technique='Lean 4 proof (partial) + correspondence against the array-level model + reference oracle', ref='6 C07'),
+    'C08': dict(text='Proved: C08_normIndex_none/some (Python index semantics), C08_child_index_error, C08_entry_of_entries, C08_one_level, '
+                     'C08_compose_counts, C08_compose_rejects, C08_transform_none, C08_make_leaf_none, C08_repr_affixes. children()/constructors/'
+                     'transform rebuild laws: correspondence (5000+ lines per run) + oracle.' + PARTIAL,
+                technique='Lean 4 proof + correspondence', ref='6 C08'),
+    'C09': dict(text='Proved (partial): C09_rejects, C09_leaf_left_go, C09_leaf_right_go, C09_kind_conflict about the merge walk. Least-common-suffix, '
+                     'symmetry, idempotence, kept entries and n-ary broadcast map: correspondence against the model of BroadcastToCommonSuffixImpl '
+                     'plus a reference least-common-suffix in the oracle.' + PARTIAL,
+                technique='Lean 4 proof (partial) + correspondence + reference oracle', ref='6 C09'),
+    'C10': dict(text='Proved: C10_chunks_flatten, C10_chunks_row_length, C10_chunks_get, C10_transpose_rows (value at (j,i) = value at (i,j)), '
+                     'C10_rejects, C10_wrong_count about the model of tree_transpose. transpose_map variants: correspondence + oracle.' + PARTIAL,
+                technique='Lean 4 proof (list lemmas for chunk/zip) + correspondence', ref='6 C10'),
+    'C11': dict(text='Proved: C11_roundtrip (fromPickle (toPickle s) = s for every sane, well-shaped treespec whose registrations resolve), '
+                     'C11_missing_registration, generated obligations C11_covers_all_fields_* / C11_model_has_the_same_fields / C11_kind_numbering. '
+                     'Pickle byte streams, protocols, copy/deepcopy and a fresh interpreter: implementation oracle only.' + PARTIAL,
+                technique='Lean 4 proof with obligations regenerated from the source + correspondence', ref='6 C11'),
+    'C12': dict(text='Proved for every class universe and every history: C12_inv (engine variants and Python mirror agree in every reachable state), '
+                     'C12_atomic, C12_isolation, C12_builtins, C12_no_double, C12_unregister_absent, C12_get_describes_flatten, '
+                     'C12_getall_describes_flatten. Histories exhaustive to a bound + sampled run through the real registry.' + PARTIAL,
+                technique='Lean 4 proof (invariant over operation histories) + correspondence on histories', ref='6 C12'),
+    'C13': dict(text='Proved for every program of enter/exit/raise events: C13_unwind_invariant, C13_restore, C13_raise_restores, C13_scope*, '
+                     'C13_cfg_reads_mode, C13_ordereddict_unaffected. All well-nested programs to a nesting bound run through the real context manager.' + PARTIAL,
+                technique='Lean 4 proof (invariant over event sequences) + correspondence on programs', ref='6 C13'),
 }
 
 REASON_PENDING = 'check not built yet in this revision (work in progress; see DESIGN.md section 6 for the plan)'
